@@ -2,10 +2,11 @@
 EXTENDS DrawValidate
 VARIABLES c, done
 NewCases == [api : {"new"}, pw : 1..6, ph : 1..5, cols : {4}, rows : {3}, multi : BOOLEAN, animate : BOOLEAN,
-             check : BOOLEAN, scroll : BOOLEAN, rw : {0}, rh : {0}, padw : {0}, padh : {0}]
+             check : BOOLEAN, scroll : BOOLEAN, rw : {0}, rh : {0}, padw : {0}, padh : {0},
+             pad : {"exact", "relw", "relh"}]
 OldCases == [api : {"old"}, pw : {0}, ph : {0}, cols : {4}, rows : {3}, multi : BOOLEAN, animate : BOOLEAN,
              check : BOOLEAN, scroll : BOOLEAN, rw : {2, 4, 5}, rh : {1, 3, 4}, padw : {-1, 0, 3, 4, 5},
-             padh : {-2, 0, 2, 3, 4}]
+             padh : {-2, 0, 2, 3, 4}, pad : {"exact"}]
 Verdict(x) == IF x.api = "new" THEN NewVerdict(x) ELSE OldVerdict(x)
 Init == /\ c \in NewCases \cup OldCases /\ done = FALSE
         /\ PrintT(<<"TABLE", ToJson([case |-> c, verdict |-> Verdict(c)])>>)
@@ -16,6 +17,10 @@ Spec == Init /\ [][Next]_<<c, done>>
 Sane == Verdict(c) \in {"ok", "RenderSizeOutofRangeError", "ValueError", "InvalidSizeError"}
 \* whether the source has several frames is irrelevant unless animate is true
 StillDrawOfAnimatedSource == ~c.animate => Verdict(c) = Verdict([c EXCEPT !.multi = FALSE])
+\* a relative dimension never excuses the absolute one next to it
+MixedPaddingStillValidated ==
+  (c.api = "new" /\ c.pad = "relw" /\ (c.check \/ Anim(c)) /\ ~(c.scroll /\ ~Anim(c)) /\ c.ph > c.rows)
+    => Verdict(c) = "RenderSizeOutofRangeError"
 RelaxingNeverRejects ==
   (c.api = "new" /\ NewVerdict(c) = "ok") => NewVerdict([c EXCEPT !.cols = @ + 1, !.rows = @ + 1]) = "ok"
 =============================================================================
